@@ -28,6 +28,9 @@ class TimeoutRace(srv.SrvHarness):
                         oracles=O, bound=2, cap=150000 if quick else 1500000))
         out.append(dict(topo='single', capacity=4, gated=['A'], calls=[[[0, 2, False], [2, big, False]], [[1, 3, False]]],
                         late_call=9, oracles=O, bound=1 if quick else 2, cap=100000 if quick else 1000000))
+        # the abandoned request's late outcome is an exception
+        out.append(dict(topo='single', capacity=4, gated=['A'], fail={'A': [0]}, calls=[[[0, 2, False]], [[1, big, False]]],
+                        late_call=9, oracles=O, bound=2, cap=150000 if quick else 1500000))
         out.append(dict(topo='seq', capacity=4, gated=['B'], calls=[[[0, 2, False]], [[1, big, False]]], late_call=9,
                         oracles=O, bound=1 if quick else 2, cap=100000 if quick else 1000000))
         out.append(dict(topo='ens', capacity=4, gated=['B'], fail_fast=True, calls=[[[0, 2, False]], [[1, big, False]]],
@@ -50,6 +53,21 @@ class StreamDrop(srv.SrvHarness):
         out.append(dict(topo='single', capacity=4, gated=['A'], calls=[[[10, 1000, False]]], late_call=9,
                         stream=dict(xs=[0, 1, 2], stop_after=1), oracles=O, bound=1 if quick else 2,
                         cap=100000 if quick else 1000000))
+        # abandoned stream elements that fail late; a saturated server whose slots are all abandoned (waiter must be woken)
+        out.append(dict(topo='single', capacity=4, fail={'A': [1, 2]}, calls=[[[10, 1000, False]]], late_call=9,
+                        stream=dict(xs=[0, 1, 2], stop_after=1), oracles=O, bound=1 if quick else 2, cap=150000 if quick else 1500000))
+        out.append(dict(topo='single', capacity=1, gated=['A'], calls=[[[0, 2, False]], [[1, 1000, False]]], late_call=9,
+                        oracles=O, bound=1 if quick else 2, cap=100000 if quick else 1000000))
+        out.append(dict(topo='single', capacity=1, gated=['A'], calls=[[[10, 1000, False]]], late_call=9,
+                        stream=dict(xs=[0, 1, 2], stop_after=1), oracles=O, bound=1 if quick else 2,
+                        cap=100000 if quick else 1000000))
+        # slow worker (the environment may hold a call for 3 virtual seconds, longer than the 2 s deadline): the slot of
+        # the abandoned request is freed late while another request waits for it
+        out.append(dict(topo='single', capacity=1, gated=['A'], env_wait=True, env_wait_t=3.0,
+                        calls=[[[0, 2, False]], [[1, 1000, False]]], late_call=9, oracles=O, bound=1,
+                        cap=100000 if quick else 1000000))
+        out.append(dict(topo='single', capacity=1, gated=['A'], env_wait=True, env_wait_t=3.0, calls=[[[10, 2, False]]],
+                        late_call=9, stream=dict(xs=[0, 1], stop_after=1), oracles=O, bound=1, cap=100000 if quick else 1000000))
         return out
 
 
